@@ -39,6 +39,8 @@ def run(ctx: Any, prog: Program) -> None:
     ctx.rule('C13.Z3', 'read/verify/write use the same storage for each placement (dir tail = footer_data, numbered file otherwise)', floor=5)
     ctx.rule('C13.Z4', 'all name lookups normalise through _get_file_parts', floor=5)
     ctx.rule('C13.Z5', 'the stored checksum covers the full data; verify chains preload and archive part', floor=3)
+    ctx.rule('C13.Z7', 'write_dirfile either always writes or its skip flag is set by every mutating method', floor=1)
+    ctx.rule('C13.Z8', 'the directory string reader keeps what it has read across iterations (no per-iteration reset before `continue`)', floor=1)
     ctx.rule('C13.Z6', 'preload length fits the 16-bit directory field', floor=1)
 
     # ---- Z1 ------------------------------------------------------------------------------------------------
@@ -260,6 +262,42 @@ def run(ctx: Any, prog: Program) -> None:
         else:
             ctx.check('C13.Z3', bad is None, vpk, bad or none_if[0], 'write() changes footer_data on a path that keeps the previous self.offset: that offset may belong to a numbered archive (or to a block other files have since been appended after), '
                       'so other files\' bytes are overwritten or the recorded offset points at the wrong data', func='FileInfo.write', text='footer offset')
+    # ---- Z7 ------------------------------------------------------------------------------------------------
+    wdf = vm['write_dirfile']
+    skip = [n for n in wdf.body if isinstance(n, ast.If) and any(isinstance(b, ast.Return) for b in n.body) and isinstance(n.test, ast.UnaryOp) and isinstance(n.test.op, ast.Not)
+            and isinstance(n.test.operand, ast.Attribute) and dotted(n.test.operand.value) == 'self']
+    if not skip:
+        ctx.check('C13.Z7', True, vpk, wdf, 'write_dirfile has no skip path', func='VPK.write_dirfile', text='write_dirfile always writes')
+    else:
+        flag = skip[0].test.operand.attr
+        for owner, methods, is_fi in (('VPK', vm, False), ('FileInfo', fm, True)):
+            for name, fn in methods.items():
+                if name in ('__init__', 'load_dirfile', 'write_dirfile'):
+                    continue
+                m_ = mutates(fn, is_fi) + [ast.unparse(n)[:40] for n in walk_no_nested(fn) if isinstance(n, ast.Delete) and '_fileinfo' in ast.unparse(n)]
+                if not m_:
+                    continue
+                sets_flag = any(isinstance(n, ast.Assign) and isinstance(n.targets[0], ast.Attribute) and n.targets[0].attr == flag and isinstance(n.value, ast.Constant) and n.value.value is True for n in ast.walk(fn))
+                ctx.check('C13.Z7', sets_flag, vpk, fn, f'write_dirfile() returns early while `self.{flag}` is false, but {owner}.{name} changes the archive ({m_[0]}) without setting it: a session consisting only of such '
+                          'operations is never written, and the reopened archive still has the old content', func=f'{owner}.{name}', text=f'{owner}.{name} sets the {flag} flag')
+    # ---- Z8 ------------------------------------------------------------------------------------------------
+    ins_ = vpk.func('iter_nullstr')
+    n_z8 = 0
+    for lp in [n for n in ast.walk(ins_) if isinstance(n, (ast.While, ast.For))]:
+        fresh = {t.id: st for st in lp.body if isinstance(st, ast.Assign) and isinstance(st.value, (ast.Call, ast.Constant, ast.List)) and ast.unparse(st.value) in ('bytearray()', '[]', "b''", "''", 'list()')
+                 for t in st.targets if isinstance(t, ast.Name)}
+        for name, st in fresh.items():
+            for br in ast.walk(lp):
+                if isinstance(br, ast.If):
+                    for arm in (br.body, br.orelse):
+                        grows = any((isinstance(x, ast.Call) and isinstance(x.func, ast.Attribute) and x.func.attr in ('extend', 'append') and dotted(x.func.value) == name)
+                                    or (isinstance(x, ast.AugAssign) and dotted(x.target) == name) for s_ in arm for x in ast.walk(s_))
+                        if grows and arm and isinstance(arm[-1], ast.Continue):
+                            n_z8 += 1
+                            ctx.check('C13.Z8', False, vpk, st, f'`{name}` is re-created at the top of every loop iteration, so what the branch ending in `continue` (line {arm[-1].lineno}) has just added to it is thrown away: '
+                                      'a string longer than one read block comes back as only its last part', func='iter_nullstr', text=f'{name} survives the continue')
+    acc = [n for n in ins_.body if isinstance(n, ast.Assign) and ast.unparse(n.value) in ('bytearray()', '[]')]
+    ctx.check('C13.Z8', True, vpk, ins_, 'no accumulator is reset inside the loop before a continue' + (' (accumulator created before the loop)' if acc else ''), func='iter_nullstr', text='accumulator scan')
     # ---- Z4 ------------------------------------------------------------------------------------------------
     for name in ('__getitem__', '__contains__', '__delitem__', 'new_file'):
         fn = vm[name]
@@ -330,5 +368,6 @@ MUTANTS = [
     {'id': 'contains_raw_lookup', 'file': 'vpk.py', 'find': "        path, filename, ext = _get_file_parts(item)\n\n        try:\n            return filename in self._fileinfo[ext][path]", 'replace': "        path, filename, ext = os.path.dirname(item), os.path.basename(item), ''\n\n        try:\n            return filename in self._fileinfo[ext][path]", 'expect': 'C13.Z4'},
     {'id': 'ext_split_first_dot', 'file': 'vpk.py', 'find': "        filename, ext = filename.rsplit('.', 1)", 'replace': "        filename, ext = filename.split('.', 1)", 'expect': 'C13.Z4'},
     {'id': 'ext_split_rpartition', 'file': 'vpk.py', 'find': "        filename, ext = filename.rsplit('.', 1)", 'replace': "        filename, _, ext = filename.rpartition('.')", 'expect': None, 'note': 'negative control: same split point'},
+    {'id': 'nullstr_block_reset', 'file': 'vpk.py', 'find': "    chars = bytearray()\n    while True:\n        char = file.read(1)\n        if char == b'\\x00':", 'replace': "    while True:\n        chars = bytearray()\n        char = file.read(4)\n        if b'\\x00' not in char and char:\n            chars.extend(char)\n            continue\n        if char == b'\\x00':", 'expect': 'C13.Z8'},
     {'id': 'crc_of_preload_only', 'file': 'vpk.py', 'find': "        new_checksum = checksum(data)\n", 'replace': "        new_checksum = checksum(data[:1024])\n", 'expect': 'C13.Z5'},
 ]
